@@ -7,9 +7,9 @@ cd /verif
 scratch=$(mktemp -d /tmp/harmless.XXXXXX)
 trap 'rm -rf "$scratch" /tmp/harmlesswork.$$' EXIT
 rsync -a --exclude .git /repo/ "$scratch/"
-( cd "$scratch" && patch -p1 -s --fuzz=3 < /verif/seeded/harmless/patch.diff ) || { echo "patch does not apply"; exit 2; }
+for d in /verif/seeded/harmless/*.diff; do ( cd "$scratch" && patch -p1 -s --fuzz=3 < "$d" ) || { echo "patch $d does not apply"; exit 2; }; done
 rc=0
-for p in ${@:-C01 C04 C08 C15}; do
+for p in ${@:-C01 C04 C07 C08 C11 C15}; do
   out=$(./bin/govc -repo "$scratch" -prop $p -tier quick -work /tmp/harmlesswork.$$ 2>&1)
   if echo "$out" | grep -q "^VIOLATION"; then echo "$p FALSE-ALARM $(echo "$out" | grep '^VIOLATION' | head -2)"; rc=1; else echo "$p PASS"; fi
 done
